@@ -412,7 +412,9 @@ ASSUME_CONC = ["a yield point precedes every statement of UserEvent, Query, regi
 
 
 def build_conc(ctx):
-    inst = vlib.instrument(ctx, [{"file": "serf/serf.go", "funcs": INSTR, "locks": True, "require": INSTR}])
+    inst = vlib.instrument(ctx, [{"file": "serf/serf.go", "funcs": INSTR, "locks": True, "require": INSTR},
+                                 {"file": "serf/lamport.go", "funcs": ["*"], "locks": False,
+                                  "require": ["LamportClock.Time", "LamportClock.Increment", "LamportClock.Witness"]}])
     ov = vlib.overlay_for(ctx, hook_pkgs=[("serf", "serf_state"), ("serf", "serf_events"), ("serf", "serf_yield")],
                           replaced=inst)
     return vlib.go_build(ctx, "events", overlay=ov, name="bin-events-conc")
